@@ -114,7 +114,7 @@ def gen_case(seed, cfg, index=0):
                 k = r.randrange(nfake)
                 prog.append(["reg", k, r.randrange(len(fakes[k]["backends"]))])
         threads.append(prog[:6])
-    if r.random() < 0.12:
+    if r.random() < 0.3:
         # per-operation shared state: one thread repeats a call (most recent key of that operation), another thread makes a call of the
         # SAME einx operation with a different key; one of them is parked somewhere inside the registry / cache / api code
         by_op = {}
@@ -131,8 +131,24 @@ def gen_case(seed, cfg, index=0):
         mode = 0.0  # everything warm: the window is in the cached path
     else:
         policy_override = None
+    warm_override = None
+    cs = (cfg.get("env") or {}).get("cache_size")
+    if cs and cs > 0 and r.random() < 0.3:
+        # bounded cache (EINX_CACHE_SIZE > 0): a cached call on the least recently used entry in one thread, a first-time call in another
+        # (its store evicts an entry), the former parked somewhere inside the cache code
+        n_fill = max(0, r.choice([cs - 1, cs - 1, cs, cs - 2]))
+        cids = r.sample(range(len(MENU)), n_fill + 2)
+        c1, c2, fill = cids[0], cids[1], cids[2:]
+        threads = [[["call", c1, None]] * r.choice([1, 2]), [["call", c2, None]]]
+        if nthreads == 3:
+            threads.append([["call", r.choice(fill + [c1, c2]), None]])
+        used_calls = set(cids)
+        warm_override = [c1] + fill  # warmed in this order: c1 is the oldest entry when the threads start
+        policy_override = {"kind": "stall", "file": "_src/util/lru_cache.py", "k": r.randint(1, 110), "m": r.choice([3, 8, 20]), "p": r.choice([0.01, 0.003]), "seed": r.randrange(1 << 30)}
     used = sorted(used_calls)
-    if mode < 0.5:
+    if warm_override is not None:
+        warm = warm_override
+    elif mode < 0.5:
         warm = used
     elif mode < 0.85:
         warm = [c for c in used if r.random() < 0.6]
@@ -150,7 +166,7 @@ def gen_case(seed, cfg, index=0):
         policy = {"kind": "pct", "points": pts, "seed": r.randrange(1 << 30)}
     if policy_override:
         policy = policy_override
-    return {"seed": seed, "threads": threads, "warm": warm, "fakes": fakes, "policy": policy, "opcode": r.random() < float(cfg.get("opcode_p", 0.0)) and False}  # opcode granularity is disabled: see DESIGN §7.5 (not replayable on CPython 3.12)
+    return {"seed": seed, "threads": threads, "warm": warm, "warm_backends": ["numpy"] if warm_override is not None else None, "fakes": fakes, "policy": policy, "opcode": r.random() < float(cfg.get("opcode_p", 0.0)) and False}  # opcode granularity is disabled: see DESIGN §7.5 (not replayable on CPython 3.12)
 
 
 # ------------------------------------------------------------------------------------------------
@@ -451,7 +467,7 @@ def exec_case(case, cfg):
     _fresh_adapters()
     # warm prefix: single-threaded, under every numpy backend
     for cid in case.get("warm", []):
-        for n in TRIO:
+        for n in case.get("warm_backends") or TRIO:
             _outcome(lambda: _do_call(cid, W.back[n]))
     seams.WORLD.registry.state = seams.WORLD.initial_state
     init = clone_state(seams.WORLD.initial_state)
@@ -603,7 +619,7 @@ def shrink_case(case, klass, cfg):
 # driver side
 # ------------------------------------------------------------------------------------------------
 def plan(tier):
-    n = 4000 if tier == "quick" else 120000
+    n = 5600 if tier == "quick" else 120000
     return {"groups": [{"env": {"hashseed": 0}, "indices": [i for i in range(n) if i % 4 != 3]}, {"env": {"hashseed": 0, "cache_size": 2}, "indices": [i for i in range(n) if i % 4 == 3]}], "n_workers": 16, "chunk": 20 if tier == "quick" else 50,
             "wall_per_chunk": 900.0, "vacuity": ("ok_calls", 0.3), "cfg": {"wall_per_run": 120, "opcode_p": 0.0}, "recycle_after": 2000}
 
